@@ -1,6 +1,7 @@
 package main
 
 import (
+	"context"
 	"fmt"
 	"os"
 	"os/exec"
@@ -97,7 +98,7 @@ var c11raceGroups = []struct {
 
 // c11racePairs: known racing pairs that are not "every pair within a set of sites".
 var c11racePairs = map[string]string{
-	"createJobs~createJobs": "IndividualNodesCompareOptions.shared",
+	"createJobs~createJobs":                                   "IndividualNodesCompareOptions.shared",
 	"(*IndividualNodesCompareOptions).adjustTotal~createJobs": "IndividualNodesCompareOptions.shared",
 }
 
@@ -229,6 +230,7 @@ func c11cli(c *Ctx, report func(rr c11raceReport, replay string)) {
 	defer os.RemoveAll(dir)
 	r := c.R.Fork("cli")
 	n := c.N(4, 120)
+	hung := 0
 	for i := 0; i < n; i++ {
 		cs := c11gen(r)
 		l, rt := c11build(cs.left, cs.lfam, 0), c11build(cs.right, cs.rfam, 1000)
@@ -238,10 +240,25 @@ func c11cli(c *Ctx, report func(rr c11raceReport, replay string)) {
 		os.Remove(of)
 		jobs := []int{8, 1, 2, 16, 3}[i%5]
 		logBase := filepath.Join(dir, "race")
-		cmd := exec.Command(bin, "diff", "-left-gedcom", lf, "-right-gedcom", rf, "-output", of, "-jobs", strconv.Itoa(jobs))
+		// a command that does not finish is an outcome (the matching is never delivered), not a hang of
+		// the harness: time limit, then kill
+		ctx, cancel := context.WithTimeout(context.Background(), 45*time.Second)
+		cmd := exec.CommandContext(ctx, bin, "diff", "-left-gedcom", lf, "-right-gedcom", rf, "-output", of, "-jobs", strconv.Itoa(jobs))
 		cmd.Env = append(os.Environ(), "GORACE=log_path="+logBase+" exitcode=0 halt_on_error=0")
+		cmd.WaitDelay = 2 * time.Second
 		outb, err := cmd.CombinedOutput()
+		timedOut := ctx.Err() == context.DeadlineExceeded
+		cancel()
 		in := map[string]interface{}{"documents": l.text + "----\n" + rt.text, "command": fmt.Sprintf("gedcom diff -left-gedcom l.ged -right-gedcom r.ged -output out.html -jobs %d", jobs)}
+		if timedOut {
+			hung++
+			c.Oracle("", "gedcom diff -jobs N does not finish: the matching is never delivered", in, "still running after 45 s (killed): "+c11tail(string(outb), 300), "exit 0 and a diff page")
+			c.Eval()
+			if hung >= 2 {
+				break // every further run would cost the full time limit
+			}
+			continue
+		}
 		st, serr := os.Stat(of)
 		if err != nil || serr != nil || st.Size() == 0 {
 			c.Oracle("", "gedcom diff -jobs N failed or wrote no page", in, fmt.Sprintf("%v: %s", err, c11tail(string(outb), 600)), "exit 0 and a diff page")
